@@ -1,10 +1,12 @@
 import Walrus.Driver.ArenaD
+import Walrus.Driver.SectionsD
 
 open Walrus.Driver
 
 def dispatch (line : String) : String :=
   match words line with
   | "arena" :: rest => handleArena rest
+  | "sect" :: rest => handleSect rest
   | _ => "bad-request"
 
 partial def loop (h : IO.FS.Stream) (out : IO.FS.Stream) : IO Unit := do
